@@ -160,6 +160,9 @@ def make_run(seed):
             except Exception as ex:
                 res = "exc:" + type(ex).__name__
                 viols.append(("raises:%s:%s" % (type(ex).__name__, op[0]), "%r raised %r after %r" % (op, ex, hist[:-1])))
+            for probe in ("a", "b", "ab", "zz", "x", "y", "xy"):     # looking something up (registered or not) changes nothing
+                nm.getAddr(probe)
+                nm.getName(probe)
             after = (nm.addrByName, nm.nameByAddr)
             if isinstance(op[2], list):
                 mres, fwd2 = (res if res in ("err", False) else "err"), dict(fwd)     # refused one way or the other, nothing changes
